@@ -17,6 +17,8 @@ def spec(tier, seed):
              "run": lambda f, v, w: _mir.vc_rej_only_failed(f, v, w)},
             {"name": "rollback_and_save_rej_files: every dropped entry was rolled back first", "function": "rollback_and_save_rej_files", "target": "bin",
              "run": lambda f, v, w: _mir.vc_rej_rollback_before_pop(f, v, w)},
+            {"name": "save_files_worker: every worker rolls the failing patch back before it saves", "function": "parallel::save_files_worker", "target": "bin",
+             "run": lambda f, v, w: _mir.vc_worker_rolls_back_before_save(f, v, w)},
             {"name": "apply_worker: stop test is strict", "function": "apply_worker", "target": "bin",
              "run": lambda f, v, w: _mir.vc_worker_stop_strict(f, v, w)},
         ],
